@@ -139,6 +139,31 @@ func readHeader(f *os.File) (*header, error) {
 		return nil, fmt.Errorf("internal error: need at least one chunk, found %d", numOffsets-1)
 	}
 
+	if numOffsets > (foundFileSize-chunkTableOffset)/8 {
+		// Also keeps numOffsets*8 below from overflowing.
+		return nil, fmt.Errorf("chunk table with %d entries cannot fit in a file of size %d",
+			numOffsets, foundFileSize)
+	}
+
+	if h.uncompressedSize <= 0 {
+		return nil, fmt.Errorf("invalid uncompressed size: %d", h.uncompressedSize)
+	}
+
+	if h.compression == Zstandard {
+		// The readers locate chunks by dividing offsets by the chunk size.
+		if h.chunkSize == 0 {
+			return nil, errors.New("invalid chunk size: 0")
+		}
+		expectedChunks := h.uncompressedSize / int64(h.chunkSize)
+		if h.uncompressedSize%int64(h.chunkSize) != 0 {
+			expectedChunks++
+		}
+		if numOffsets-1 != expectedChunks {
+			return nil, fmt.Errorf("expected %d chunks of size %d for a blob of size %d, found %d",
+				expectedChunks, h.chunkSize, h.uncompressedSize, numOffsets-1)
+		}
+	}
+
 	metadataSize := numOffsets*8 + 8 + 1 + 4 + 8
 	if int64(frameSize) != metadataSize {
 		return nil, fmt.Errorf("metadata frame size %d, but metadata size %d",
